@@ -183,6 +183,22 @@ CHECKS = {
         "nowiki tags.",
         "DESIGN.md 5/C15",
     ),
+    "C17": (
+        "exploration",
+        "exhaustive enumeration of inclusion digraphs on <= 3 templates x "
+        "flag sets x redirect placements + Hypothesis graphs to 8 templates, "
+        "against a least-fixed-point reference model, under a watchdog",
+        "Every digraph with self loops on <= 3 templates with every "
+        "classifier flag set and every placement of one redirect page "
+        "(thorough: all 201 812; quick: every 4th) and generated graphs on up "
+        "to 8 templates with redirects, dangling references and unusual "
+        "names are analysed through a table-lookup classifier; the marked set "
+        "must equal the reference closure and the call must return within "
+        "20 s.",
+        "Trusts the closure model in checks/c17_closure.py and the SIGALRM "
+        "watchdog; single-hop redirects and stored spellings only.",
+        "DESIGN.md 5/C17",
+    ),
 }
 
 NOT_YET = "check not built yet in this round (planned in DESIGN.md section 5)"
